@@ -840,7 +840,7 @@ def unit_of(t, ob):
 
 
 def run_exprs(ctx):
-    N = ctx.n(235, 1200)
+    N = ctx.n(220, 1200)
     trees = []
     for i in range(N):
         dt = DTS[i % 4]
@@ -1169,7 +1169,7 @@ def run_sweep(ctx):
         # every class with form "id" at two dtypes + a sample of the derived forms
         base = [(n, d, "id") for n in names for d in ("float32", "complex64")]
         rest = [c for c in combos if c[2] != "id"]
-        combos = base + ctx.rng.sample(rest, 210)
+        combos = base + ctx.rng.sample(rest, 195)
     base_fail = {}
 
     def base_whats(name, dt):
@@ -1418,6 +1418,8 @@ def config_spec(c):
         axes = list(range(len(shp))) if ax is None else ([ax] if isinstance(ax, int) else list(ax))
         if c["circular"] and (c["prepend"] is not None or c["append"] is not None):
             return None
+        if any(not -len(shp) <= a < len(shp) for a in axes) or len({a % len(shp) for a in axes}) != len(axes):
+            return None
         outs = []
         for a in axes:
             o = list(shp)
@@ -1524,6 +1526,12 @@ def config_lattice(ctx):
              {"kind": "FD", "shape": [3, 4], "dtype": "float64", "axes": None, "prepend": 1, "append": 0, "circular": False, "jit": True},
              {"kind": "SAFD", "shape": [5], "dtype": "float32", "axis": 0, "prepend": 0, "append": None, "circular": True},
              {"kind": "SAFD", "shape": [5], "dtype": "float32", "axis": 1, "prepend": None, "append": None, "circular": False}]
+    must += [{"kind": "SAFD", "shape": [3, 4], "dtype": "float32", "axis": -3, "prepend": None, "append": None, "circular": False},
+             {"kind": "FD", "shape": [3, 4], "dtype": "float32", "axes": -3, "prepend": None, "append": None, "circular": False}]
+    more += [{"kind": "SAFD", "shape": [3, 4], "dtype": "float32", "axis": -4, "prepend": 0, "append": None, "circular": False},
+             {"kind": "FD", "shape": [3, 4], "dtype": "float32", "axes": [0, -3], "prepend": None, "append": 0, "circular": False},
+             {"kind": "FD", "shape": [3, 4], "dtype": "float32", "axes": [0, 0], "prepend": None, "append": None, "circular": False},
+             {"kind": "FD", "shape": [3, 4], "dtype": "float32", "axes": 2, "prepend": None, "append": None, "circular": False}]
     # DFT: (axes None / given) x (axes_shape None / padding / cropping / mixed)
     dft = []
     for shp in ([4], [3, 4], [2, 3, 4]):
@@ -1552,22 +1560,53 @@ def config_lattice(ctx):
     must += [c for c in prop if c["kind"] == "Fresnel" and c["shape"] == [8] and c["dx"] == 1.0 and c["pad_factor"] == 2]
     more += [c for c in prop if c not in must]
     if ctx.quick:
-        more = rng.sample(more, 26)
+        more = rng.sample([c for c in more if not c.get("jit")], 20)   # the default-jit configurations: thorough tier
     cfgs = must + more
-    for c in rng.sample(cfgs, ctx.n(6, 60)):
+    for c in rng.sample(cfgs, ctx.n(4, 60)):
         c["derived"] = True
     return cfgs
 
 
 def run_configs(ctx):
     cfgs = config_lattice(ctx)
+    items = {"SAFD": [], "FD": [], "DFT": []}
+    metas = {"SAFD": [], "FD": [], "DFT": []}
     for c in cfgs:
         ob = observe_config(c)
         ctx.count("config:" + c["kind"], c)
+        ok = ob["ctor"] is None
+        k = c["kind"]
+        if k == "SAFD":
+            act = ob["call"][0] if ok and isinstance(ob["call"], list) else None
+            items[k].append(f"({c_shape(c['shape'])}, {zlit(c['axis'])}, {c_oz(c['prepend'])}, {c_oz(c['append'])}, {c_bool(c['circular'])}, "
+                            f"{c_opt(ob['osh'] if ok else None, c_shape)}, {c_opt(act, c_shape)})")
+            metas[k].append(c)
+        elif k == "FD":
+            ax = c["axes"]
+            ax = None if ax is None else ([ax] if isinstance(ax, int) else list(ax))
+            items[k].append(f"({c_shape(c['shape'])}, {c_opt(ax, c_shape)}, {c_oz(c['prepend'])}, {c_oz(c['append'])}, {c_bool(c['circular'])}, "
+                            f"{c_opt(ob['osh'] if ok else None, c_nshape)})")
+            metas[k].append(c)
+        elif k == "DFT":
+            inv = ob["inv"][0] if ok and isinstance(ob.get("inv"), list) else None
+            items[k].append(f"({c_shape(c['shape'])}, {c_opt(c['axes'], c_shape)}, {c_opt(c['axes_shape'], c_shape)}, "
+                            f"{c_opt(ob['osh'] if ok else None, c_shape)}, {c_opt(inv, c_shape)})")
+            metas[k].append(c)
         for w, exp, got, orc in config_failures(c, ob):
             inp = dict(c)
             inp["declared"] = None if ob["ctor"] is not None else [ob["ish"], ob["osh"], ob["idt"], ob["odt"]]
             ctx.violation("config:" + c["kind"], w, inp, expected=exp, observed=got, oracle=orc)
+    run_coded(ctx, "C12_safd", "safd_code", items["SAFD"], metas["SAFD"],
+              {1: "SingleAxisFiniteDifference declared shape: model differs from the implementation",
+               2: "SingleAxisFiniteDifference evaluation shape: model differs from the implementation"}, model_bits=3,
+              ty="shape * Z * option Z * option Z * bool * option shape * option shape")
+    run_coded(ctx, "C12_fd", "fd_code", items["FD"], metas["FD"],
+              {1: "FiniteDifference declared shape: model differs from the implementation"}, model_bits=1,
+              ty="shape * option (list Z) * option Z * option Z * bool * option nshape")
+    run_coded(ctx, "C12_dft", "dft_code", items["DFT"], metas["DFT"],
+              {1: "DFT declared shape: model differs from the implementation",
+               2: "DFT.inv shape: model differs from the implementation"}, model_bits=3,
+              ty="shape * option (list Z) * option (list Z) * option shape * option shape")
     return cfgs
 
 
@@ -1606,13 +1645,11 @@ def run(ctx: Ctx):
                   "generated as its own unit derived:div (fixed boundary cases + random trees + sweep forms /2, /2j, /npc64)."]
     ctx.assumptions += ["values are abstracted: only shape and dtype of arrays are modelled",
                         "dtypes restricted to float32/float64/complex64/complex128 (x64 enabled)"]
-    run_slices(ctx)
-    run_index(ctx)
-    run_shapes(ctx)
-    run_exprs(ctx)
-    run_sweep(ctx)
-    run_configs(ctx)
-    run_malformed(ctx)
+    import time
+    for f in (run_slices, run_index, run_shapes, run_exprs, run_sweep, run_configs, run_malformed):
+        t0 = time.time()
+        f(ctx)
+        ctx.notes.append(f"stream {f.__name__}: {time.time() - t0:.1f} s")
     ctx.exhaustive = not ctx.quick  # slice lattice / class x dtype x form tables are complete in the thorough tier
 
 
